@@ -72,6 +72,17 @@ def run(res):
             continue
         ncoll += 1
         cases += [(logic, t), (logic, t2), (logic, t)]
+    # and/or with one operand or none (`And(*conds)` with a short list): outside the parsers' output, inside the API
+    from checks.c03 import degenerate
+    ndeg = 0
+    for _ in range(200 if quick else 2000):
+        logic = rng.choice(['CTL', 'LTL', 'CTLS'])
+        t = {'CTL': lambda: F.rand_ctl(rng, 3), 'LTL': lambda: F.rand_ltl_path(rng, 3, max_temporal=3),
+             'CTLS': lambda: F.rand_ctls_state(rng, 3, max_temporal=3, qdepth=2)}[logic]()
+        t2 = degenerate(rng, t)
+        if t2 != t:
+            cases.append((logic, t2))
+            ndeg += 1
     # known finding: LTL.A(g).get_equivalent_restricted_formula()
     kf = known_findings('C05')
     try:
@@ -189,7 +200,7 @@ def run(res):
         res.violation('proof obligation no longer checks: ' + p, {'theorem_or_module': p}, no_input=True)
     res.coverage.update({
         'evaluations': len(cases), 'distinct_nontrivial': len(distinct),
-        'same_print_different_tree_triples': ncoll,
+        'same_print_different_tree_triples': ncoll, 'formulas_with_one_or_no_operand_and_or': ndeg,
         'rule': 'every CTL state / LTL path / CTL* formula of depth <=1 (%d, exhaustive), depth 2 (sampled in quick), '
                 'random to depth 6 with n-ary and/or; distinct_nontrivial = distinct formulas that the rewriting '
                 'changes' % n_exh,
